@@ -185,3 +185,6 @@ enum ByteTokenLoweredPriority {
 #[derive(Logos)] enum TieMultiByteSeq { #[regex("[α-ω][α-ω]")] A, #[regex("λ[a-zα-ω]")] B }
 #[derive(Logos)] enum NoTieMultiByteToken { #[token("α")] T, #[regex("[α-ω]")] R }
 #[derive(Logos)] enum NoTieMultiByteToken2 { #[token("日本")] T, #[regex("[日月][本木]")] R }
+
+// a priority written with a digit separator has the value Rust gives it (if the derive accepts it at all)
+#[derive(Logos)] enum TieSeparatorPriority { #[token("let", priority = 1_0)] Let, #[regex("[a-z]+", priority = 10)] Id }
